@@ -74,9 +74,10 @@ def hashLt (a b : Bytes) : Bool :=
 
 def insertBy {α : Type} (key : α → Bytes) (x : α) : List α → List α
   | [] => [x]
-  | y :: ys => if hashLt (key x) (key y) then x :: y :: ys else y :: insertBy key x ys
+  | y :: ys => if hashLt (key y) (key x) then y :: insertBy key x ys else x :: y :: ys
 
-/-- sort by code hash (what `sort.Slice` / `sort.Sort` produce when the keys are pairwise distinct) -/
+/-- stable sort by code hash: what `sort.Slice` / `sort.Sort` produce when the keys are pairwise distinct, and
+    also for ties as long as the list has at most 12 elements (Go then uses insertion sort, which is stable) -/
 def sortBy {α : Type} (key : α → Bytes) : List α → List α
   | [] => []
   | x :: xs => insertBy key x (sortBy key xs)
@@ -88,5 +89,27 @@ def checkTxSig {D : Type} (v : Variant) (fx : Fix) (O : Oracles D) (d : D) (t : 
     | none => fail .scriptAttr
     | some hs =>
       runPrograms fx O d (sortBy (fun h => h.hash) hs) (sortBy (fun p => O.codeHash p.code) t.programs)
+
+end ElaVerif.TxSig
+
+namespace ElaVerif.TxSig
+open ElaVerif.Script ElaVerif.RunPrograms
+
+/-- `checkTransactionSignature` with the two lists presented to the sort in the given or the reversed
+    order.  Go sorts a list that comes out of a map (`unique` in GetTxProgramHashes) with an unstable
+    sort, so for elements with EQUAL code hashes the final order is not determined; reversing the input
+    of the (stable) model sort yields the other order of a tied pair. -/
+def checkTxSigWith {D : Type} (v : Variant) (fx : Fix) (O : Oracles D) (d : D) (t : Tx) (revH revP : Bool) : Res :=
+  if exempt v t.ttype t.pver then ok
+  else match getTxProgramHashes t with
+    | none => fail .scriptAttr
+    | some hs =>
+      let hs' := if revH then hs.reverse else hs
+      let ps' := if revP then t.programs.reverse else t.programs
+      runPrograms fx O d (sortBy (fun h => h.hash) hs') (sortBy (fun p => O.codeHash p.code) ps')
+
+/-- the verdicts reachable through the two orders of the hash list (the program list is a slice: its order is fixed) -/
+def verdicts {D : Type} (v : Variant) (fx : Fix) (O : Oracles D) (d : D) (t : Tx) : List Res :=
+  [checkTxSigWith v fx O d t false false, checkTxSigWith v fx O d t true false]
 
 end ElaVerif.TxSig
